@@ -150,6 +150,21 @@ def forced():
                                                       st_pause("c4", b"web", 20 * SEC, async_=False), cookie("r1"), st_sleep(SEC),
                                                       rd("c5", b"ts:80"), st_sleep(SEC), st_resume("c6", b"web", async_=False), cookie("r3")] + st_end(),
                                             "expect": {"r1": "ts:80", "r3": "ts:80"}}))
+    # "releases them intact": requests with a body (declared length / chunked) held by a pause and released by a resume
+    # reach the target with that body (the scripted target transport compares length and checksum)
+    body = lambda rid, n, chunked=False: dict(st_req(rid), method="POST", body=H(bytes((7 * i + n) % 251 for i in range(n))), chunked=chunked)
+    out.append(("held-with-body", {"steps": [st_deploy("c1", b"web", [b"ta:80"]), body("r1", 8), st_sleep(SEC // 10),
+                                             st_pause("c2", b"web", 20 * SEC, async_=False), body("r2", 8), body("r3", 70000), body("r4", 300, True),
+                                             st_sleep(SEC), st_resume("c3", b"web", async_=False), body("r5", 17)] + st_end(),
+                                   "expect": {"r1": "ta:80", "r2": "ta:80", "r3": "ta:80", "r4": "ta:80", "r5": "ta:80"}}))
+    # a repeated pause replaces the max-pause in force: requests arriving after it are held for the NEW max-pause
+    out.append(("repeated-pause-shorter", {"steps": [st_deploy("c1", b"web", [b"ta:80"]), st_pause("c2", b"web", 10 * SEC, async_=False),
+                                                     st_pause("c3", b"web", SEC // 5, async_=False), st_req("r1"), st_sleep(2 * SEC),
+                                                     st_resume("c4", b"web", async_=False), st_req("r2")] + st_end()}))
+    out.append(("repeated-pause-longer", {"steps": [st_deploy("c1", b"web", [b"ta:80"]), st_pause("c2", b"web", SEC // 5, async_=False),
+                                                    st_pause("c3", b"web", 10 * SEC, async_=False), st_req("r1"), st_sleep(SEC),
+                                                    st_resume("c4", b"web", async_=False), st_req("r2")] + st_end(),
+                                          "expect": {"r1": "ta:80", "r2": "ta:80"}}))
     return out
 
 
